@@ -285,16 +285,20 @@ Definition check (c : case) : outcome :=
                              | None => true
                              end) m_calls &&
            Bool.eqb m_outside i_outside &&
-           Bool.eqb (m_up_calls || (m_up_cand && obj_uploads)) obj_uploads &&
+           (* (a "%" bucket: the HTTP side acts under the DECODED name, which a copy source may
+              name as well, so the attribution of an upload area to a bucket is not compared) *)
+           (odd_bucket b || Bool.eqb (m_up_calls || (m_up_cand && obj_uploads)) obj_uploads) &&
            chg_explained && leak_explained;
          o_prop := negb i_outside && negb i_changed && negb i_leak && negb obj_uploads;
          (* each failing part must lie in the trigger set of ITS finding: an escape needs a
             climbing request, a touched upload area needs a walk through ".uploads"; when
             both fail, both triggers are required and finding 0 is reported; what these two
-            do not explain is finding 2's when the bucket name has a "%" *)
+            do not explain is finding 2's when the bucket name has a "%" and the route puts
+            it into a filer URL (odd_request; the gRPC-only routes use the literal name and
+            must stay inside /buckets/<literal name>) *)
          o_trig := if (negb need0 || req_climbs q) && (negb need1 || req_enters_uploads q) && (need0 || need1)
                    then (if need0 then Some 0%N else Some 1%N)
-                   else if odd_bucket b then Some 2%N else None;
+                   else if odd_request q then Some 2%N else None;
          o_nontrivial := (i_status =? 2)%N |}
   | CFix fxid snap =>
       {| o_corr := fixture_eqb (tl (fx_of fxid)) snap;
